@@ -800,7 +800,7 @@ Section Loops.
 Variable K : nat.             (* calls made so far + calls still allowed *)
 Variable fuelok : Prop.       (* "the fuel is sufficient" *)
 Hypothesis HQA : forall s', calls s' <= K -> QA s'.
-Hypothesis HQF : forall s', ~ fuelok -> QF s'.
+Hypothesis HQF : forall s', calls s' <= K -> ~ fuelok -> QF s'.
 Hypothesis Hgr : isbase gr.
 
 Definition fm (a : astate) : nat := match a with AInit => pot a + 2 | _ => pot a + 1 end.
@@ -826,7 +826,7 @@ Lemma cm_spec fuel : forall a k s,
   wpx (compute_maximal oracle fuel k) (fun l s' => rmax l /\ calls s' <= K) s.
 Proof.
   induction fuel as [|f IH]; intros a k s HI Hok HK Hfuel.
-  - cbn [compute_maximal]. apply wp_out_of_fuel. apply HQF. intros Hf. specialize (Hfuel Hf).
+  - cbn [compute_maximal]. apply wp_out_of_fuel. apply HQF; [lia|]. intros Hf. specialize (Hfuel Hf).
     destruct a; cbn [fm] in Hfuel; lia.
   - cbn [compute_maximal]. destruct a as [|cur R Bs|cur R Bs0 q|Bs]; [| | |destruct Hok].
     + pose proof HI as [_ (Hst & _)]. rewrite Hst. rewrite wp_bind.
@@ -944,7 +944,7 @@ Lemma rg_spec cred fuel : forall a k s,
   wpx (rg_loop oracle fuel e n la cred k) (fun r s' => rg_post cred r /\ calls s' <= K) s.
 Proof.
   induction fuel as [|f IH]; intros a k s HI Hok Hd HK Hfuel.
-  - cbn [rg_loop]. apply wp_out_of_fuel. apply HQF. intros Hf. specialize (Hfuel Hf).
+  - cbn [rg_loop]. apply wp_out_of_fuel. apply HQF; [lia|]. intros Hf. specialize (Hfuel Hf).
     destruct a; cbn [fm] in Hfuel; lia.
   - cbn [rg_loop]. rewrite wp_bind. destruct a as [|cur R Bs|cur R Bs0 q|Bs]; [| | |destruct Hok].
     + (* the grounded start *)
@@ -1080,3 +1080,147 @@ Proof.
 Qed.
 End Loops.
 End Steps.
+End Range.
+
+(* ------------------------------------------------------------------------------------------ *)
+(** * 10. The procedures of the semi-stable / stage solvers inside one component *)
+
+Lemma st_adds_reserved s cs : reserved (sess (st_adds s cs)) = reserved (sess s).
+Proof. revert s. induction cs as [|c r IH]; intros s; cbn [st_adds]; [reflexivity|]. now rewrite IH. Qed.
+
+Lemma position_lt A (p : A -> bool) l i : position p l = Some i -> i < length l.
+Proof.
+  revert i. induction l as [|x r IH]; intros i; cbn [position]; [discriminate|].
+  destruct (p x); [intros H; inversion H; cbn; lia|].
+  destruct (position p r) as [j|]; cbn [option_map]; [|discriminate].
+  intros H. inversion H. specialize (IH j eq_refl). cbn [length]. lia.
+Qed.
+Lemma locals_lt c al la : locals c al = Some la -> forall a, In a la -> a < length (c_ids c).
+Proof.
+  revert la. induction al as [|x r IH]; intros la; cbn [locals fold_right].
+  - intros H. inversion H. intros a [].
+  - fold (locals c r). destruct (cc_local c x) as [i|] eqn:Ei; [|discriminate].
+    destruct (locals c r) as [l|]; [|discriminate]. intros H. inversion H. subst la.
+    intros a [<-|Ha]; [|now apply (IH l eq_refl)].
+    unfold cc_local, index_of in Ei. now apply position_lt in Ei.
+Qed.
+
+Section Top.
+Variable oracle : nat -> cnf -> list lit -> answer.
+Variable thr : nat.
+Hypothesis Hthr : 1 <= thr.
+Hypothesis Hvalid : valid_oracle oracle.
+Variable e : enc.
+Hypothesis He : enc_base e <> BSt.
+Variable F : af.
+Variable n : nat.
+Hypothesis HF : compact_af F n.
+Hypothesis Hgr : basep (enc_base e) F (grounded (view_of_af F)).
+
+(* the bound of C18 *)
+Definition rg_bound : nat := (n + 2) * length (all_base (enc_base e) F) + 3.
+
+Lemma rg_setup A (QA QP QF : Prog.st -> Prop) (cont : computer -> M A) (Q : A -> Prog.st -> Prop) s :
+  (forall C frv selv k0 s0,
+     enc_clauses e thr true F = Some C -> first_range_var e n = Some frv ->
+     bounded C (selv - 1) -> frv + n <= selv ->
+     Inv e F n C frv selv AInit k0 s0 -> calls s0 = calls s ->
+     wp QA QP QF (cont k0) Q s0) ->
+  wp QA QP QF (new_solver ;;; encode_m thr e true F ;;; k <- new_cc_computer e F FRange ;; cont k) Q s.
+Proof.
+  intros Hcont.
+  destruct (encode_af e thr true F) as [[r C]|] eqn:HE.
+  2:{ exfalso. assert (H : enc_clauses e thr true F = None) by (unfold enc_clauses; now rewrite HE).
+      apply all_defined in H. destruct H as [H _]. subst e. now apply He. }
+  pose proof (enc_clauses_some thr e true F r C HE) as HC.
+  destruct (frv_some e He n) as [frv Hfrv].
+  pose proof (compact_length F n HF) as Hlen.
+  assert (Hr : r = Some (frv + n - 1)).
+  { rewrite <- Hlen in Hfrv |- *. exact (frv_reserve e thr F r C frv HE Hfrv). }
+  rewrite wp_bind, wp_new_solver, wp_bind. rewrite (wp_encode_m thr _ _ _ e true F r C _ _ HE).
+  set (s1 := st_encoded (st_new s) r C).
+  assert (Hc1 : cls s1 = C) by (unfold s1; now rewrite cls_encoded, cls_new).
+  assert (Hsb1 : sess_bounded s1) by (unfold s1; apply sb_encoded, sb_new).
+  unfold new_cc_computer, new_computer. rewrite Hlen. rewrite wp_bind, wp_bind, wp_n_vars, wp_ret.
+  set (nv := session_n_vars (sess s1)).
+  assert (Hres : frv + n - 1 <= nv).
+  { unfold nv, session_n_vars, s1, st_encoded. rewrite st_adds_reserved, Hr. cbn. lia. }
+  pose proof (range_var_pos e n 0) as Hpos. rewrite (frv_range_var e n frv 0 Hfrv) in Hpos.
+  apply (Hcont C frv (1 + nv)).
+  - exact HC.
+  - exact Hfrv.
+  - replace (1 + nv - 1) with nv by lia. rewrite <- Hc1. now apply nvars_fresh.
+  - lia.
+  - split; [repeat split|]. cbn [c_state c_model]. split; [reflexivity|split; [reflexivity|]].
+    split; [now apply sb_nvars|]. exists []. split; [now rewrite cls_nvars, Hc1, app_nil_r|apply Gok_nil].
+  - unfold s1, st_encoded. cbn [calls st_nvars log_ev]. rewrite st_adds_calls. destruct r; reflexivity.
+Qed.
+
+Lemma pot_init_bound : pot e F n AInit + 2 = rg_bound.
+Proof. unfold rg_bound, pot, nbase. lia. Qed.
+
+(* T1 + T3: single extension *)
+Theorem rg_max_in_cc_spec (fuelok : Prop) fuel (c : comp) s :
+  c_af c = F -> (fuelok -> 2 * rg_bound + 4 <= fuel) ->
+  match rg_max_in_cc oracle thr fuel e c s with
+  | Done L s' => (exists l, L = lift c l /\ rmax e F l) /\ calls s' <= calls s + rg_bound
+  | Abort s' => calls s' <= calls s + rg_bound
+  | Panic _ => False
+  | OutOfFuel s' => calls s' <= calls s + rg_bound /\ ~ fuelok
+  end.
+Proof.
+  intros Hc Hfuel.
+  assert (H : wp (fun s' => calls s' <= calls s + rg_bound) (fun _ => False)
+                 (fun s' => calls s' <= calls s + rg_bound /\ ~ fuelok)
+                 (rg_max_in_cc oracle thr fuel e c)
+                 (fun L s' => (exists l, L = lift c l /\ rmax e F l) /\ calls s' <= calls s + rg_bound) s).
+  { unfold rg_max_in_cc. rewrite Hc. apply rg_setup.
+    intros C frv selv k0 s0 HC Hfrv HselC Hselr HI Hcalls.
+    rewrite wp_bind.
+    eapply wp_mono; [|apply (cm_spec thr Hthr e F n HF C HC frv Hfrv selv HselC Hselr oracle Hvalid
+                               _ _ _ (calls s + rg_bound) fuelok) with (a := AInit)].
+    - intros l s' [Hl Hcs]. rewrite wp_ret. split; [exists l; now split|exact Hcs].
+    - intros s' H'. exact H'.
+    - intros s' H1 H2. now split.
+    - exact Hgr.
+    - exact HI.
+    - exact I.
+    - pose proof pot_init_bound. lia.
+    - intros Hf. specialize (Hfuel Hf). pose proof pot_init_bound. cbn [fm]. lia. }
+  unfold wp in H. destruct (rg_max_in_cc oracle thr fuel e c s); exact H.
+Qed.
+
+(* T2 + T3: acceptance of a list of arguments *)
+Theorem rg_in_cc_spec (fuelok : Prop) fuel (c : comp) al la cred s :
+  c_af c = F -> locals c al = Some la -> (forall a, In a la -> a < n) ->
+  (fuelok -> 2 * rg_bound + 4 <= fuel) ->
+  match rg_in_cc oracle thr fuel e c al cred s with
+  | Done r s' => rg_post e F la cred r /\ calls s' <= calls s + rg_bound
+  | Abort s' => calls s' <= calls s + rg_bound
+  | Panic _ => False
+  | OutOfFuel s' => calls s' <= calls s + rg_bound /\ ~ fuelok
+  end.
+Proof.
+  intros Hc Hloc Hla Hfuel.
+  assert (H : wp (fun s' => calls s' <= calls s + rg_bound) (fun _ => False)
+                 (fun s' => calls s' <= calls s + rg_bound /\ ~ fuelok)
+                 (rg_in_cc oracle thr fuel e c al cred)
+                 (fun r s' => rg_post e F la cred r /\ calls s' <= calls s + rg_bound) s).
+  { unfold rg_in_cc, locals_m. rewrite Hloc, Hc. rewrite wp_bind, wp_ret. apply rg_setup.
+    intros C frv selv k0 s0 HC Hfrv HselC Hselr HI Hcalls.
+    rewrite (compact_length F n HF).
+    apply (rg_spec thr Hthr e F n HF C HC frv Hfrv selv HselC Hselr oracle Hvalid
+             _ _ _ (calls s + rg_bound) fuelok) with (a := AInit).
+    - intros s' H'. exact H'.
+    - intros s' H1 H2. now split.
+    - exact Hgr.
+    - exact Hla.
+    - exact HI.
+    - exact I.
+    - exact I.
+    - pose proof pot_init_bound. lia.
+    - intros Hf. specialize (Hfuel Hf). pose proof pot_init_bound. cbn [fm]. lia. }
+  unfold wp in H. destruct (rg_in_cc oracle thr fuel e c al cred s); exact H.
+Qed.
+
+End Top.
